@@ -528,7 +528,7 @@ func runC03(c *Ctx, d c03Desc) {
 			ok := r != nil && r.Status == 200 && parseExtEvent(r.Body).EventType == "INVOKE" && parseExtEvent(r.Body).RequestID == rtEv.ReqID()
 			c.Check(ok, "subscriber_served", "C03/subscriber-not-served", "an INVOKE subscriber did not receive the first invocation", k)
 		} else {
-			time.Sleep(300 * time.Microsecond)
+			time.Sleep(3 * time.Millisecond)
 			c.Check(!a.Done(), "non_subscriber_not_served", "C03/non-subscriber-served", "an extension not subscribed to INVOKE was released by the first invocation", k)
 		}
 	}
